@@ -54,15 +54,20 @@ Toks == [
   w |-> Tok("-fwords", "ab-cd", <<>>, <<"ab", "cd">>), du |-> Tok("-D", "U=1", <<>>, <<>>), dv |-> Tok("-D", "V", <<>>, <<>>),
   iu |-> Tok("-I", "/uinc", <<>>, <<>>), unk |-> T0("-fnot-modelled") ]
 
-RuleSets == CASE Profile = "q" -> {{"mode", "pass", "split", "match", "matchno", "words", "def", "pinc"}, {"mode", "mode2", "splitnd", "passbad", "pinc"}}
+\* profile "h": ONE small configuration space, explored exhaustively, whose histories revolve around the
+\* rules that keep state in the implementation (override / default pass lists): every pair of commands
+\* (without "matchno": its default would keep sm_70 selected whatever the overriding rule does)
+RuleSets == CASE Profile = "h" -> {{"mode", "pass", "split", "match", "words", "def", "pinc"}}
+              [] Profile = "q" -> {{"mode", "pass", "split", "match", "matchno", "words", "def", "pinc"}, {"mode", "mode2", "splitnd", "passbad", "pinc"}}
               [] OTHER -> {{"mode", "pass", "split", "match", "matchno", "words", "def", "pinc"}, {"mode", "mode2", "splitnd", "passbad", "pinc"},
-                           {"mode"}, {"matchno", "split"}, {}}
-OptionSets == {<<>>, <<Tok("-D", "IMPL=1", <<>>, <<>>)>>, <<T0("-fmode")>>, <<Tok("-D", "IMPL=1", <<>>, <<>>), T0("-fpass")>>}
-Names == <<"c1", "c2", "c3", "c4">>
-AliasTargets == {"c1", "c2", "c3", "c4", "ghost"}
-TokNames == IF Profile = "q" THEN {"pinc", "mode", "pass", "def", "tab", "tb", "a80", "a7580", "g80", "g75", "w", "du", "unk", "ob", "passbad"}
+                           {"mode"}, {"matchno", "split"}, {"match", "splitnd"}, {}}
+OptionSets == IF Profile = "h" THEN {<<>>}
+              ELSE {<<>>, <<Tok("-D", "IMPL=1", <<>>, <<>>)>>, <<T0("-fmode")>>, <<Tok("-D", "IMPL=1", <<>>, <<>>), T0("-fpass")>>}
+Names == IF Profile = "h" THEN <<"c1", "c2">> ELSE <<"c1", "c2", "c3", "c4">>
+AliasTargets == IF Profile = "h" THEN {"c1"} ELSE {"c1", "c2", "c3", "c4", "ghost"}
+TokNames == IF Profile = "h" THEN {"a80", "a7580", "g75", "tab", "tb", "pass"} ELSE IF Profile = "q" THEN {"pinc", "mode", "pass", "def", "tab", "tb", "a80", "a7580", "g80", "g75", "w", "du", "unk", "ob", "passbad"}
             ELSE DOMAIN Toks
-MaxArgs == 2
+MaxArgs == IF Profile = "h" THEN 1 ELSE 2
 NCmds == 2
 
 Compiler(rs, opts) == [alias |-> "", options |-> opts, rules |-> [i \in 1..Len(SetToSeq(rs)) |-> Rules[SetToSeq(rs)[i]]],
